@@ -55,6 +55,21 @@ def search(payload):
                     else:
                         fails.append(rec)
                     break
+    # short str / extreme bounds: the bound itself is a rare draw, so these streams are read far (cheap: no collections)
+    from predicate.standard_predicates import gt_p
+    for p in (ge_p("a"), ge_p("b"), gt_p(""), gt_p("a"), ge_p("A"), ge_p("0")):
+        for seed in range(2):
+            random.seed(int(payload["seed"]) * 104729 + seed)
+            try:
+                vals, err = g.take(GENF(p), 6000 if deep else 3000, seconds=60.0)
+            except (ValueError, TypeError):
+                continue
+            for i, v in enumerate(vals):
+                n += 1
+                k, r = call(p, v)
+                if k != "ok" or r:
+                    fails.append({"p": repr(p), "p_structure": skey(p), "position": i, "value": repr(v), "p(value)": (repr(r) if k == "ok" else f"raises {r}")})
+                    break
     w14 = ge_p(3) & is_int_p
     random.seed(1)
     vals, _ = g.take(GENF(w14), 8)
